@@ -17,6 +17,8 @@ import PgProofs.GenEvoPop
 import PgProofs.GenDedupEvo
 import PgProofs.GenEvoGen
 import PgProofs.GenEvoChunk
+import PgModel.GenOps
+import PgModel.GenSched
 namespace Pg.C15
 
 /-- Generated obligation: the current source has the repaired shape of `Deduping.recover/_replay`
@@ -820,6 +822,125 @@ theorem C15_recover_nsga2 (env : Env) (hq : env.q = Quirks.patched) (seed : Nat)
       ∧ popComponent (recover env (.evolution (.random seed sd) sz) (setup (.evolution (.random seed sd) sz))
           (runLive env (.evolution (.random seed sd) sz) run).hist) = some enc
       ∧ ∃ elites pop, Nsga2.decode enc = (elites, pop) := by
+  obtain ⟨np, nf, pop, si, ini, g, pend, si', ini', g', pend', h1, h2⟩ :=
+    C15_recover_evolution env hq (.random seed sd) (Or.inr ⟨seed, sd, rfl⟩) sz run
+  exact ⟨pop, by rw [h1]; rfl, by rw [h2]; rfl, _, _, rfl⟩
+
+/-! ### The algorithms pyglove/ext/evolution builds, with the C14 operator model as reproduction / update -/
+
+/-- `regularized_evolution(mutators.Uniform(seed), population_size = n, tournament_size = t, seed)`:
+reproduction `selectors.Random(t) >> selectors.Top(1) >> mutator` and update `selectors.Last(n)` are the
+operator model of C14 (PgModel/Evo.lean) evaluated over the recorded PRNG draws `events` of every `_evolve`
+call (PgModel/GenOps.lean; pipeline text checked by the translator).  For every run and every oracle
+stream the recovered instance has the counters and the population of the uninterrupted one. -/
+theorem C15_recover_regularized_evolution (base : Env) (hq : base.q = Quirks.patched) (dims : List Nat)
+    (n t seed : Nat) (events : Nat → List Pg.C14.Ev) (run : List Event) :
+    ∃ np nf pop si ini g pend si' ini' g' pend',
+      (runLive (Ops.regEvoEnv base dims n t events) (.evolution (.random seed true) (some n)) run).st
+        = .evolution np nf si ini g pop pend
+      ∧ recover (Ops.regEvoEnv base dims n t events) (.evolution (.random seed true) (some n))
+          (setup (.evolution (.random seed true) (some n)))
+          (runLive (Ops.regEvoEnv base dims n t events) (.evolution (.random seed true) (some n)) run).hist
+        = .ok (.evolution np nf si' ini' g' pop pend') :=
+  C15_recover_evolution (Ops.regEvoEnv base dims n t events) hq (.random seed true) (Or.inr ⟨seed, true, rfl⟩)
+    (some n) run
+
+/-- `hill_climb(mutators.Uniform(seed), batch_size = b, init_population_size = k, seed)`:
+reproduction `selectors.Top(1) >> (mutator * b)`, update `selectors.Top(1)`. -/
+theorem C15_recover_hill_climb (base : Env) (hq : base.q = Quirks.patched) (dims : List Nat)
+    (b k seed : Nat) (events : Nat → List Pg.C14.Ev) (run : List Event) :
+    ∃ np nf pop si ini g pend si' ini' g' pend',
+      (runLive (Ops.hillClimbEnv base dims b events) (.evolution (.random seed true) (some k)) run).st
+        = .evolution np nf si ini g pop pend
+      ∧ recover (Ops.hillClimbEnv base dims b events) (.evolution (.random seed true) (some k))
+          (setup (.evolution (.random seed true) (some k)))
+          (runLive (Ops.hillClimbEnv base dims b events) (.evolution (.random seed true) (some k)) run).hist
+        = .ok (.evolution np nf si' ini' g' pop pend') :=
+  C15_recover_evolution (Ops.hillClimbEnv base dims b events) hq (.random seed true) (Or.inr ⟨seed, true, rfl⟩)
+    (some k) run
+
+/-- Deduping over either of them (any hash function, duplicate and attempt limits): outer counters,
+wrapped population and feedback count, de-duplication memory up to the order of rewards per key. -/
+theorem C15_recover_dedup_regularized_evolution (base : Env) (hq : base.q = Quirks.patched) (dims : List Nat)
+    (n t seed hid md ma : Nat) (au : Bool) (events : Nat → List Pg.C14.Ev) (run : List Event) :
+    ∃ np nf pop c c' enp enp' si ini g pend si' ini' g' pend',
+      (runLive (Ops.regEvoEnv base dims n t events)
+          (.deduping (.evolution (.random seed true) (some n)) hid md ma au) run).st
+        = .deduping np nf (.evolution enp nf si ini g pop pend) c
+      ∧ recover (Ops.regEvoEnv base dims n t events) (.deduping (.evolution (.random seed true) (some n)) hid md ma au)
+          (setup (.deduping (.evolution (.random seed true) (some n)) hid md ma au))
+          (runLive (Ops.regEvoEnv base dims n t events)
+            (.deduping (.evolution (.random seed true) (some n)) hid md ma au) run).hist
+        = .ok (.deduping np nf (.evolution enp' nf si' ini' g' pop pend') c')
+      ∧ ∀ k, (cacheGet c k).Perm (cacheGet c' k) :=
+  C15_recover_dedup_evolution (Ops.regEvoEnv base dims n t events) hq (.random seed true)
+    (Or.inr ⟨seed, true, rfl⟩) (some n) hid md ma au run
+
+theorem C15_recover_dedup_hill_climb (base : Env) (hq : base.q = Quirks.patched) (dims : List Nat)
+    (b k seed hid md ma : Nat) (au : Bool) (events : Nat → List Pg.C14.Ev) (run : List Event) :
+    ∃ np nf pop c c' enp enp' si ini g pend si' ini' g' pend',
+      (runLive (Ops.hillClimbEnv base dims b events)
+          (.deduping (.evolution (.random seed true) (some k)) hid md ma au) run).st
+        = .deduping np nf (.evolution enp nf si ini g pop pend) c
+      ∧ recover (Ops.hillClimbEnv base dims b events) (.deduping (.evolution (.random seed true) (some k)) hid md ma au)
+          (setup (.deduping (.evolution (.random seed true) (some k)) hid md ma au))
+          (runLive (Ops.hillClimbEnv base dims b events)
+            (.deduping (.evolution (.random seed true) (some k)) hid md ma au) run).hist
+        = .ok (.deduping np nf (.evolution enp' nf si' ini' g' pop pend') c')
+      ∧ ∀ k', (cacheGet c k').Perm (cacheGet c' k') :=
+  C15_recover_dedup_evolution (Ops.hillClimbEnv base dims b events) hq (.random seed true)
+    (Or.inr ⟨seed, true, rfl⟩) (some k) hid md ma au run
+
+/-! (The operator instantiation is exercised by the correspondence run: every child of every `_evolve` call of
+the real regularized_evolution / hill_climb is recomputed by `Ops.reproOf` from the recorded draws; `mergeSort`
+in the C14 selectors does not reduce in the kernel, so no `decide` example is given here.) -/
+
+/-! ### Scheduled hyper-parameters with internal state (`scalars.StepWise`, finding F240) -/
+
+/-- Pinned `StepWise.call`: the schedule `[(3, 1), (4, 2)]` called at every step gives 2 at step 5; the
+fresh schedule object of an instance recovered at step 5, first called at step 5, gives 1 — and stays in
+its first phase forever. -/
+theorem C15_F240_counterexample :
+    (Sched.run true [(3, .const 1), (4, .const 2)] Sched.init [0, 1, 2, 3, 4, 5, 6]).drop 5 = [some 2, some 2]
+    ∧ Sched.run true [(3, .const 1), (4, .const 2)] Sched.init [5, 6] = [some 1, some 1] := by
+  decide
+
+/-- Repaired `StepWise.call` (/repo df4963a): the value is a function of the step, so whatever
+calls were or were not made before — a recovered instance, a reproduction that is only invoked every few
+steps — every later call returns what the uninterrupted schedule returns. -/
+theorem C15_stepwise_stateless (phases : List (Nat × Sched.PV)) (st : Sched.State) (steps : List Nat) :
+    Sched.run false phases st steps = steps.map (Sched.callStateless phases) := by
+  induction steps with
+  | nil => rfl
+  | cons s rest ih => simp only [Sched.run, Bool.false_eq_true, ↓reduceIte, ih, List.map_cons]
+
+theorem C15_stepwise_recovers (phases : List (Nat × Sched.PV)) (before after : List Nat) :
+    (Sched.run false phases Sched.init (before ++ after)).drop before.length
+      = Sched.run false phases Sched.init after := by
+  rw [C15_stepwise_stateless, C15_stepwise_stateless, List.map_append]
+  simp
+
+/-- …and on the example above the repaired schedule gives the values of the pinned one called at every
+step (the repair does not change sequential use). -/
+example : Sched.run false [(3, .const 1), (2, .step), (2, .const 7)] Sched.init [0, 1, 2, 3, 4, 5, 6, 7, 8]
+    = Sched.run true [(3, .const 1), (2, .step), (2, .const 7)] Sched.init [0, 1, 2, 3, 4, 5, 6, 7, 8] := by
+  decide
+
+/-! ### NEAT: population and living species -/
+
+/-- NEAT (`pg.evolution.neat`): the model's population component encodes
+`(global_state.living_species, population)` (PgModel/Neat.lean); the update is `Neat.update` — latest
+generation, then `speciate` with the userdata marks derived from the species table.  For every run, at
+every crash point, the recovered instance has the species table (representatives, members with
+multiplicity) and the population of the uninterrupted one: `DNA.userdata` is not persisted, but the replay
+of `Evolution.recover` rebuilds the marks (established by experiment on the real code first: 1350 crash
+points without a difference; then tied by correspondence).  Instance of `C15_recover_evolution`. -/
+theorem C15_recover_neat (env : Env) (hq : env.q = Quirks.patched) (seed : Nat) (sd : Bool) (sz : Option Nat)
+    (facts : Neat.Facts) (dims : List Nat) (_hu : env.update = Neat.update facts dims) (run : List Event) :
+    ∃ enc, popComponent (.ok (runLive env (.evolution (.random seed sd) sz) run).st) = some enc
+      ∧ popComponent (recover env (.evolution (.random seed sd) sz) (setup (.evolution (.random seed sd) sz))
+          (runLive env (.evolution (.random seed sd) sz) run).hist) = some enc
+      ∧ ∃ species pop, Neat.decode enc = (species, pop) := by
   obtain ⟨np, nf, pop, si, ini, g, pend, si', ini', g', pend', h1, h2⟩ :=
     C15_recover_evolution env hq (.random seed sd) (Or.inr ⟨seed, sd, rfl⟩) sz run
   exact ⟨pop, by rw [h1]; rfl, by rw [h2]; rfl, _, _, rfl⟩
